@@ -155,8 +155,9 @@ func K4() *Entry {
 	f := file("k4", m)
 	AutoComments(f)
 	c := BaseConfig("Casts")
-	c.CustomTypes = map[string]string{"Casts.Joined": "verif/types.Joined"}
-	c.Suffixes = map[string]string{"CustomB": "Switch"}
+	// custom types through configuration: one with the default suffix, one with a suffixes entry
+	c.CustomTypes = map[string]string{"Casts.Joined": "verif/types.Joined", "Casts.Plain": "verif/types.Labels"}
+	c.Suffixes = map[string]string{"CustomB": "Switch", "verif/types.Labels": "LabelSet"}
 	return &Entry{Name: "k4", File: f, Cfg: c, Tags: []string{"cast", "custom", "oneof"}}
 }
 
@@ -231,7 +232,7 @@ func K7() *Entry {
 // K8: naming (json tags, overrides, lower_snake, acronyms with a fixed name).
 func K8() *Entry {
 	m := M("Naming",
-		F("PlainName"), F("lower_snake_name"), F("single"), F("WithDigits2"),
+		F("PlainName", Cmt(" PlainName is the name of the package to install\n package main\n")), F("lower_snake_name"), F("single"), F("WithDigits2"),
 		// lower_snake segments that end in digits or are single letters: the attribute name is the proto name itself
 		F("ipv4_addr"), F("sha256_sum", Sc(ir.Bytes)), F("s3_bucket"), F("a_b_c", Sc(ir.Int32)), F("x2_y2_z", Rep()), F("Tagged", JSON("tagged_name")), F("TaggedOmit", JSON("tagged_omit,omitempty")),
 		F("TagDash", JSON("-")), F("TagEmpty", JSON("")), F("TagDashOmit", JSON("-,omitempty")),
@@ -265,7 +266,9 @@ func K9() *Entry {
 	pref := M("Pref", F("Meta", MsgT("Meta"), NonNull()), F("Common", MsgT("Common"), NonNull(), Embed()), F("Enabled", Sc(ir.Bool)))
 	f := file("k9", user, pref, spec, meta, owner, common)
 	AutoComments(f)
-	return &Entry{Name: "k9", File: f, Cfg: BaseConfig("User", "Pref"), Tags: []string{"multi-path", "multi-root", "embed", "time"}}
+	// Meta and Owner are exported themselves and occur below other exported types through
+	// fields named like the type (README: `Metadata Metadata = 1`)
+	return &Entry{Name: "k9", File: f, Cfg: BaseConfig("User", "Pref", "Meta", "Owner"), Tags: []string{"multi-path", "multi-root", "embed", "time"}}
 }
 
 // K10: several roots, unrelated messages, a dependency file (same Go package
